@@ -113,7 +113,8 @@ def cases(ctx):
             if not lay['padding']:
                 lay['padding'] = [rand_size(rng, rng.choice(UNITS), small=True) for _ in range(4)]
         yield {'writer': writer, 'level': level, 'layout': lay, 'vw': vw, 'vh': vh,
-               'relativize': rng.random() < 0.8, 'fit': rng.random() < 0.6}
+               'relativize': rng.random() < 0.8, 'fit': rng.random() < 0.6,
+               'second_language': writer in ('SAMIWriter', 'DFXPWriter') and rng.random() < 0.4}
 
 
 def nontrivial(case):
@@ -132,6 +133,10 @@ def build_set(case):
                        'captions': [{'start': 1000000, 'end': 2000000, 'nodes': nodes, 'style': None,
                                      'layout': lay if level == 'caption' else None}]}],
             'styles': None, 'layout': lay if level == 'set' else None}
+    if case.get('second_language'):
+        # the observed language comes second (SAMI treats the first language as primary)
+        spec['langs'].insert(0, {'lang': 'fr', 'layout': None, 'captions': [
+            {'start': 1000000, 'end': 2000000, 'nodes': [['t', 'bonjour']], 'style': None, 'layout': None}]})
     return dump.mk_caption_set(spec)
 
 
@@ -246,13 +251,14 @@ def check(case, ctx):
     if writer == 'DFXPWriter':
         doc = parsers.parse_ttml(out)
         regions = {r.get('{%s}id' % parsers.XMLNS): r for r in doc['regions']}
-        p = doc['divs'][0]['ps'][0]
+        div = [d for d in doc['divs'] if d['lang'] == 'en'][0]
+        p = div['ps'][0]
         if case['level'] == 'span':
             rid = p['spans'][0].get('region') if p['spans'] else None
         elif case['level'] == 'caption':
             rid = p['attrib'].get('region')
         else:
-            rid = doc['divs'][0]['attrib'].get('region')
+            rid = div['attrib'].get('region')
         reg = regions.get(rid)
         if reg is None:
             f = {'what': 'no region found for the positioned element', 'region': rid}
